@@ -365,6 +365,16 @@ def rule_all_versions_kept(ctx):
     ok = pmall(t, "$ids = _get_matching_dir_entries(%s, %s, stat.S_ISDIR)" % (sv.params[1], sv.params[2]), "for $d in $ids:",
                "$ip = os.path.join(%s, $d)" % sv.params[1], "$vf = _get_matching_dir_entries($ip, _AUTHSET_ANY, stat.S_ISREG, '.json')",
                "for $f in $vf:") is not None
+    # ... on EVERY path: the list of version files that is walked has no other definition than the directory listing (a
+    # "fast path" that names one file from the query opens a file the sink may have named differently -- dictionary-kept
+    # objects are named by their own `modified` text -- and finds nothing)
+    from ..cfg import ReachingDefs
+    g_sv = cfg_of(sv)
+    rd_sv = ReachingDefs(g_sv, sv.all_param_names())
+    for lp in [x for x in body_walk(sv.node) if isinstance(x, ast.For) and isinstance(x.iter, ast.Name)]:
+        defs = rd_sv.reaching(g_sv.node_of(lp), lp.iter.id)
+        if any(isinstance(v, ast.Call) and call_simple_name(v) == "_get_matching_dir_entries" and ".json" in norm(v) for _d, v in defs):
+            ok = ok and all(isinstance(v, ast.Call) and call_simple_name(v) == "_get_matching_dir_entries" for _d, v in defs)
     run.check(ok, R, key(sv.module.relpath, sv.qualname, "reads-every-version-file"), "not every version file is read",
               file=sv.module.relpath, line=sv.node.lineno, function=sv.qualname,
               expected="all *.json files of each id directory", found="changed")
